@@ -5,6 +5,8 @@ Nothing here judges anything; `observe()` records, TLC (spec/TopologyTrace.tla) 
 from __future__ import annotations
 
 import asyncio
+import copy
+import json
 import logging
 import re
 from typing import Any
@@ -48,7 +50,7 @@ def frame_of(claim: dict) -> str:
         return f"RQ --- {claim['dev']} {c} --:------ 0004 002 {claim['idx']}00"
     if k == "raw":
         return claim["frame"]
-    raise ValueError(claim)
+    raise ValueError(claim)  # ("fake" is not traffic: run_history calls gwy.fake_device)
 
 
 # --------------------------------------------------------------------------------------
@@ -139,14 +141,31 @@ class LogTap(logging.Handler):
 
 
 async def new_gateway(*, eavesdrop: bool = False, max_zones: int | None = None,
-                      schema: dict | None = None) -> tuple[Any, Any]:
+                      schema: dict | None = None, known_list: dict | None = None) -> tuple[Any, Any]:
     config: dict[str, Any] = {"disable_discovery": True, "enable_eavesdrop": eavesdrop}
     if max_zones is not None:
         config["max_zones"] = max_zones
-    return await fakes.make_port_gateway(config=config, schema=schema or {})
+    # (the gateway writes into the known_list it is given - every gateway gets its own copy)
+    return await fakes.make_port_gateway(config=config, schema=copy.deepcopy(schema or {}),
+                                         known_list=copy.deepcopy(known_list or {}))
+
+
+# validating / re-loading the same configuration again gives the same answer (virtual loop, no discovery): both are
+# memoised per process, so a history whose schema does not change for a stretch costs one validation and one reload
+_VALID: dict[str, str] = {}
+_RELOAD: dict[str, dict] = {}
 
 
 def validate(schema: dict) -> str:
+    key = json.dumps(schema, sort_keys=True, default=str)
+    if key not in _VALID:
+        if len(_VALID) > 20000:
+            _VALID.clear()
+        _VALID[key] = _validate(schema)
+    return _VALID[key]
+
+
+def _validate(schema: dict) -> str:
     """'' if the library's own validator accepts the schema - both shrunk (as the library saves it) and as it is
     reported - else the error text."""
     from ramses_rf.helpers import shrink
@@ -162,11 +181,20 @@ def validate(schema: dict) -> str:
     return ""
 
 
-async def reload_view(schema: dict, *, eavesdrop: bool, max_zones: int | None) -> dict:
+async def reload_view(schema: dict, *, eavesdrop: bool, max_zones: int | None, known_list: dict | None = None) -> dict:
     """schema_view of a fresh gateway configured with `schema` (or {'error': ...})."""
+    key = json.dumps([schema, eavesdrop, max_zones, known_list], sort_keys=True, default=str)
+    if key not in _RELOAD:
+        if len(_RELOAD) > 20000:
+            _RELOAD.clear()
+        _RELOAD[key] = await _reload_view(schema, eavesdrop=eavesdrop, max_zones=max_zones, known_list=known_list)
+    return copy.deepcopy(_RELOAD[key])
+
+
+async def _reload_view(schema: dict, *, eavesdrop: bool, max_zones: int | None, known_list: dict | None) -> dict:
     from ramses_rf.helpers import shrink
     try:
-        g2, _ = await new_gateway(eavesdrop=eavesdrop, max_zones=max_zones, schema=shrink(schema))
+        g2, _ = await new_gateway(eavesdrop=eavesdrop, max_zones=max_zones, schema=shrink(schema), known_list=known_list)
     except Exception as err:  # noqa: BLE001
         return {"error": f"{type(err).__name__}: {str(err)[:200]}"}
     try:
@@ -176,11 +204,32 @@ async def reload_view(schema: dict, *, eavesdrop: bool, max_zones: int | None) -
         await g2.stop()
 
 
+def faked_ids(gwy: Any) -> list[str]:
+    return sorted(d.id for d in gwy.devices if d.id != HGI and getattr(d, "is_faked", False))
+
+
+def config_known_list(gwy: Any, known_list: dict | None) -> dict:
+    """The known_list to feed back with the reported schema: the one the gateway was given, and `faked: true` for the
+    devices the application has asked it to fake since (class as the gateway itself reports it)."""
+    kl = copy.deepcopy(known_list or {})
+    for d in faked_ids(gwy):
+        if d not in kl:
+            kl[d] = {"class": (gwy.known_list.get(d) or {}).get("class")}
+            if kl[d]["class"] is None:
+                del kl[d]["class"]
+        kl[d]["faked"] = True
+    return kl
+
+
 def run_history(claims: list[dict], *, eavesdrop: bool = False, max_zones: int | None = None,
-                schema: dict | None = None, reload_each: bool = True, observe_every: int = 1) -> dict:
-    """Feed the claims one by one to a real Gateway; after each step record what the contract needs."""
+                schema: dict | None = None, reload_each: bool = True, observe_every: int = 1,
+                known_list: dict | None = None) -> dict:
+    """Feed the claims one by one to a real Gateway; after each step record what the contract needs.
+    A claim {"k": "fake", "dev": id} is not traffic: the application calls gwy.fake_device(id).
+    known_list: the configured known_list (may say `faked: true`)."""
     rec: dict[str, Any] = {"eavesdrop": eavesdrop, "max_zones": max_zones, "claims": claims, "steps": [],
-                           "schema0": schema}
+                           "schema0": schema, "known_list": known_list}
+    api_exc: list[str] = []
     logging.disable(logging.NOTSET)
     tap = LogTap()
     root = logging.getLogger()
@@ -195,15 +244,18 @@ def run_history(claims: list[dict], *, eavesdrop: bool = False, max_zones: int |
         sch = gwy.schema
         err = validate(sch)
         view = schema_view(sch)
-        reloaded = await reload_view(sch, eavesdrop=eavesdrop, max_zones=max_zones) if reload_each and not err else {}
+        reloaded = await reload_view(sch, eavesdrop=eavesdrop, max_zones=max_zones,
+                                     known_list=config_known_list(gwy, known_list)) if reload_each and not err else {}
         tap.recs = []
-        return {"claim": what, "graph": graph(gwy), "view": view, "valid_err": err, "reload": reloaded,
-                "loop_exc": excs, "logs": logs[:6]}
+        step = {"claim": what, "graph": graph(gwy), "view": view, "valid_err": err, "reload": reloaded,
+                "loop_exc": excs, "logs": logs[:6], "faked": faked_ids(gwy), "api_exc": api_exc[:4]}
+        api_exc.clear()
+        return step
 
     async def main() -> None:
         loop = asyncio.get_running_loop()
         try:
-            gwy, t = await new_gateway(eavesdrop=eavesdrop, max_zones=max_zones, schema=schema)
+            gwy, t = await new_gateway(eavesdrop=eavesdrop, max_zones=max_zones, schema=schema, known_list=known_list)
         except Exception as err:  # noqa: BLE001
             rec["load_error"] = f"{type(err).__name__}: {str(err)[:200]}"
             return
@@ -212,7 +264,13 @@ def run_history(claims: list[dict], *, eavesdrop: bool = False, max_zones: int |
             n0 = len(loop.exc)
             tap.recs = []
             for i, cl in enumerate(claims, 1):
-                t.rx(frame_of(cl), 0.01)
+                if cl["k"] == "fake":  # the application's call; what it raises goes to its caller (recorded, not judged)
+                    try:
+                        gwy.fake_device(cl["dev"])
+                    except Exception as err:  # noqa: BLE001
+                        api_exc.append(f"{type(err).__name__}: {str(err)[:120]}")
+                else:
+                    t.rx(frame_of(cl), 0.01)
                 await asyncio.sleep(0.05)
                 if i % observe_every == 0 or i == len(claims):  # (`reported` covers the whole stretch)
                     rec["steps"].append(await observe(gwy, loop, n0, cl))
@@ -317,6 +375,8 @@ def claim_from_model(c: dict) -> dict:
         return {"k": "devs", "ctl": c["ctl"], "idx": "00", "role": "0F", "devs": devs}
     if k == "eav":
         return {"k": "eav_thm", "ctl": c["ctl"], "idx": c["idx"], "dev": devs[0]}
+    if k == "fake":
+        return {"k": "fake", "dev": devs[0]}
     raise ValueError(c)
 
 
